@@ -30,6 +30,7 @@ class Pipe:
         self.total = 0  # bytes ever accepted
         self.wire = bytearray()  # everything ever accepted (for the independent parser)
         self.cut_at = None  # fault: accept exactly this many bytes in total, then fire on_cut
+        self.cut_after_nl = None  # fault: like cut_at, counted from the end of the first line (bootstrap)
         self.on_cut = None
         self.discard = False  # reader shut down its side: bytes are dropped
         self.delivered = 0  # bytes handed to the reader
@@ -41,6 +42,11 @@ class Pipe:
     def push(self, data):
         """Accept bytes (caller checked space).  Applies the cut fault."""
         n = len(data)
+        if self.cut_after_nl is not None and self.cut_at is None:
+            i = data.find(b"\n")
+            if i >= 0:
+                self.cut_at = self.total + i + 1 + self.cut_after_nl
+                self.cut_after_nl = None
         if self.cut_at is not None and self.total + n >= self.cut_at:
             n = self.cut_at - self.total
             data = data[:n]
